@@ -106,7 +106,14 @@ pub fn check(q: &Q, conts: &[Vec<u8>]) -> Option<String> {
     if feed(&mut d, &q.prefix, false).is_none() || feed(&mut twin, &q.prefix, false).is_none() {
         return None; // panics / hangs while feeding the prefix are C06/C08's business
     }
-    let r = match fw::catch(|| d.latin1_byte_compatible_up_to(&q.buf)) {
+    // the query buffer starts 0..=15 bytes after a 16-byte boundary, depending on its contents
+    let shift = (fw::fnv(&q.buf) % 16) as usize;
+    let mut holder: Vec<u8> = vec![0x61; q.buf.len() + 32];
+    let base = (16 - (holder.as_ptr() as usize & 15)) & 15;
+    let qoff = base + shift;
+    holder[qoff..qoff + q.buf.len()].copy_from_slice(&q.buf);
+    let qbuf: &[u8] = &holder[qoff..qoff + q.buf.len()];
+    let r = match fw::catch(|| d.latin1_byte_compatible_up_to(qbuf)) {
         Ok(r) => r,
         Err(p) => return Some(format!("latin1_byte_compatible_up_to panicked: {}", p)),
     };
